@@ -122,7 +122,8 @@ func safePrefix(p string) (r string, err *facet.Failure) {
 // failure reasons that have the shape of a defect already recorded as a known
 // finding; failures of any other shape are reported in preference.
 var knownShapes = map[string]bool{
-	"prefix-longer-than-known-string": true,
+	// (empty: both findings of this property are repaired in /repo; their
+	// witnesses are regression replays now)
 }
 
 func pick(fails []*facet.Failure) error {
